@@ -180,6 +180,9 @@ func mutationsFor(rel, class string, orig []byte, rng *rand.Rand, thorough bool)
 			out = append(out, mutation{rel: rel, kind: "subst", off: i, val: v, data: d})
 		}
 	}
+	if class != "object" && class != "index" {
+		out = append(out, tokenMutations(rel, orig, thorough)...)
+	}
 	na := 6
 	if thorough {
 		na = 60
@@ -189,6 +192,61 @@ func mutationsFor(rel, class string, orig []byte, rng *rand.Rand, thorough bool)
 	}
 	for i := 0; i < na; i++ {
 		out = append(out, mutation{rel: rel, kind: "arbitrary", off: i, data: arbitraryFor(class, orig, rng)})
+	}
+	return out
+}
+
+// tokenMutations damages the fields of a text file (HEAD, branch, config, reflog) rather than single bytes: every
+// blank-, tab- or newline-separated field is shortened to a few lengths (ids of 2, 4, 6, 7, 8 or 39 digits), emptied,
+// lengthened, split by a blank and joined with its neighbour. Decoders that check a field's alphabet but not its
+// length, or index into a field, fail only on such shapes.
+func tokenMutations(rel string, orig []byte, thorough bool) []mutation {
+	var out []mutation
+	type tok struct{ a, b int }
+	var toks []tok
+	start := -1
+	for i := 0; i <= len(orig); i++ {
+		sep := i == len(orig) || orig[i] == ' ' || orig[i] == '\t' || orig[i] == '\n'
+		if !sep && start < 0 {
+			start = i
+		}
+		if sep && start >= 0 {
+			toks = append(toks, tok{start, i})
+			start = -1
+		}
+	}
+	maxTok := 14
+	if thorough {
+		maxTok = 60
+	}
+	// the first fields of the first record and the fields of the last record
+	if len(toks) > maxTok {
+		toks = append(append([]tok{}, toks[:maxTok/2]...), toks[len(toks)-maxTok/2:]...)
+	}
+	splice := func(a, b int, repl []byte) []byte {
+		return append(append(append([]byte{}, orig[:a]...), repl...), orig[b:]...)
+	}
+	n := 0
+	add := func(kind string, off int, d []byte) {
+		out = append(out, mutation{rel: rel, kind: kind, off: off, val: n, data: d})
+		n++
+	}
+	for _, t := range toks {
+		w := orig[t.a:t.b]
+		for _, l := range []int{0, 1, 2, 3, 4, 6, 7, 8, 39} {
+			if l < len(w) {
+				add("field-short", t.a, splice(t.a, t.b, w[:l]))
+			}
+		}
+		add("field-long", t.a, splice(t.a, t.b, append(append([]byte{}, w...), w[len(w)-1])))
+		for _, at := range []int{1, 2, 4, 6, 7} {
+			if at < len(w) {
+				add("field-split", t.a+at, splice(t.a+at, t.a+at, []byte{' '}))
+			}
+		}
+		if t.b < len(orig) {
+			add("field-join", t.b, splice(t.b, t.b+1, nil))
+		}
 	}
 	return out
 }
